@@ -278,6 +278,11 @@ def elem_of(seq, i):
         return seq._pyvc_elem(i)
     if isinstance(seq, (Rope, MutRope)):
         return seq[SInt(_t(i))]
+    if isinstance(seq, _b.range):
+        iv = _cval(_t(i))
+        if iv is not None:
+            return seq[iv]
+        return SInt(_simp(seq.start + _t(i) * seq.step))
     if isinstance(seq, (list, tuple, bytes)):
         iv = _cval(_t(i))
         if iv is not None:
@@ -337,7 +342,8 @@ def m_getitem(obj, idx):
         if any(is_sym(x) for x in (idx.start, idx.stop, idx.step)):
             if isinstance(obj, (bytes, bytearray, str)):
                 return Rope.of(obj)[idx]
-            raise Undecided("symbolic slice of %r" % type(obj).__name__)
+            if isinstance(obj, (list, tuple)):
+                raise Undecided("symbolic slice of %r" % type(obj).__name__)
         return obj[idx]
     if is_sym(idx) and isinstance(obj, (list, tuple, bytes, bytearray)):
         iv = None
@@ -387,8 +393,8 @@ def _table_lookup(obj, idx):
     f, _, isbv = ent
     # table semantics as one quantifier-free fact: ite chain is avoided by asserting all entries
     fk = "tblfacts%d" % key
-    if fk not in c.ghost:
-        c.ghost[fk] = True
+    if fk not in c.aux:
+        c.aux[fk] = True
         if isbv:
             for j, v in enumerate(obj):
                 c.add(f(z3.BitVecVal(j, core.BVW)) == z3.BitVecVal(v, core.BVW))
